@@ -76,6 +76,12 @@ def _run_case(args):
 def run_cases(cases, jobs=None):
     """cases: list of (callable, name, kwargs). Runs them in forked worker processes."""
     jobs = jobs or int(os.environ.get('VERIF_JOBS', '0') or 0) or min(16, os.cpu_count() or 4)
+    flt = os.environ.get('VERIF_CASE_FILTER')
+    if flt and os.environ.get('VERIF_EVIDENCE_DIR'):
+        # development only (mutant / seed runs with scratch evidence): run the cases whose name matches
+        import re as _re
+        cases = [c for c in cases if _re.search(flt, c[1])]
+        print(f'NOTE: case filter {flt!r}: {len(cases)} case(s)')
     if len(cases) == 1 or jobs == 1:
         return [_run_case(c) for c in cases]
     ctx = mp.get_context('fork')
